@@ -127,6 +127,28 @@ Proof.
   intros o r E. destruct (ev_recs _ _ Ev o r E) as (r' & E' & A & _ & _ & _ & V & _). eauto.
 Qed.
 
+(* the allocation limit never lies beyond the end of the file, at any instant
+   (every prefix of every schedule: every kill point), and the step that moves
+   it publishes a value that the file ALREADY reached before that step: the
+   extension comes first, the limit CAS after it *)
+Theorem limit_within_file : forall st0 sched i, init_ok st0 ->
+  let st := run sched st0 in
+  f_limit (fst st) <= f_size (fst st) /\
+  (f_limit (fst (step st i)) <> f_limit (fst st) -> f_limit (fst (step st i)) <= f_size (fst st)).
+Proof.
+  intros st0 sched i I0 st. pose proof (reach_inv st0 sched I0) as In. fold st in In.
+  destruct st as [f ts]. destruct In as (W & TI & V). cbn [fst snd] in *.
+  split; [destruct W as [(_ & _ & L & _) _]; exact L|].
+  unfold FileConc.step. destruct (nth_error ts i) as [t|] eqn:E; [|cbn; intro X; congruence].
+  assert (VB : forall r, In r (f_recs f) -> r_val r <= MAX64).
+  { intros r I. rewrite (V r I). unfold sat. lia. }
+  pose proof (step_thread_post bucket nlen H i f t W VB (TI i t E)) as Po.
+  destruct (step_thread bucket nlen H i f t) as [oa t']. cbn [fst snd] in *.
+  destruct oa as [a|]; [|intro X; congruence]. destruct Po as (Pre & _).
+  destruct a; cbn in *; try (intro X; congruence).
+  intros _. destruct Pre as (_ & _ & L & _). exact L.
+Qed.
+
 Definition begun_rel (t : thread) : Prop :=
   t_begun t = (if in_add (t_pc t) then (t_cell t, t_amt t) :: t_succ t else t_succ t).
 
